@@ -407,6 +407,16 @@ def c084(ctx):
     for pt in rmed:
         g = [lab for bb, lab, srcs in K.guards(f, pt)
              if srcs and all(s["k"] == "const" and s.get("v") in (0, 1) for s in srcs) and {s.get("v") for s in srcs} == {0, 1} and lab == "sw:0"]
+        if not g:
+            # the same skip written with enumerate(): rmed/added lie behind the not-equal edge of `idx == 0` on the running index of an
+            # un-reversed enumerate over the edits of the fragment
+            for tst in K.value_tests(f, lambda fn_, o_: any(s_["k"] == "index" and s_.get("from") == 0 and s_.get("plain") for s_ in P.origins(fn_, o_))):
+                if tst["value"] != 0:
+                    continue
+                for (b_, lab_) in tst["eq_edges"]:
+                    other_ = [l2 for l2, _s in f.blocks[b_].succs if l2 != lab_]
+                    if len(other_) == 1 and P.edge_dominates(f, b_, other_[0], pt):
+                        g = ["enumerate"]
         ctx.check(R, f, "skip-first", bool(g), "the first edit of every fragment is skipped (rmed/added are reached only on the false edge of a boolean flag that is set then cleared)",
                   "the roll-up edit of a fragment is no longer skipped", pt=pt)
     rn = ctx.calls(R, f, REN)
